@@ -219,3 +219,522 @@ Section Walk.
   Lemma walk_any : forall oid ch, walk_spec oid ch.
   Proof. intros. apply walk_children. apply Forall_forall. intros n _. apply node_spec_all. Qed.
 End Walk.
+
+(* ------------------------------------------------------------------ the healthy endpoint serves its table *)
+Lemma assoc_nodup {A} (T : list (str * A)) u o :
+  nodup_str (map fst T) = true -> In (u, o) T -> assoc u T = Some o.
+Proof.
+  induction T as [|[k v] T IH]; simpl; intros Hn Hin; [tauto|].
+  apply andb_true_iff in Hn as [Hk Hn]. destruct Hin as [Heq|Hin].
+  - inversion Heq; subst. rewrite str_eqb_refl. reflexivity.
+  - destruct (str_eqb u k) eqn:Eq; [|auto].
+    apply str_eqb_eq in Eq; subst. exfalso. apply negb_true_iff in Hk.
+    assert (mem_str k (map fst T) = true) as Hm.
+    { apply mem_str_In. apply in_map_iff. exists (k, o); auto. }
+    congruence.
+Qed.
+
+Definition healthy_from (w : world) (n0 : nat) (E : env) (tk : str) (T : list (str * obj)) : Prop :=
+  forall k r, n0 <= k -> w k r = healthy E tk T k r.
+
+Lemma healthy_from_serves E tk T w n0 :
+  nodup_str (token_url E :: map fst T) = true -> healthy_from w n0 E tk T -> serves w n0 tk T.
+Proof.
+  intros Hn Hw k u o Hk Hin. rewrite (Hw k _ Hk). unfold healthy; cbn [r_url r_auth].
+  simpl in Hn. apply andb_true_iff in Hn as [Ht Hn].
+  destruct (str_eqb u (token_url E)) eqn:Eq.
+  - apply str_eqb_eq in Eq; subst. apply negb_true_iff in Ht.
+    assert (mem_str (token_url E) (map fst T) = true) as Hm.
+    { apply mem_str_In, in_map_iff. exists (token_url E, o); auto. }
+    congruence.
+  - rewrite str_eqb_refl. rewrite (assoc_nodup T u o Hn Hin). reflexivity.
+Qed.
+
+Lemma healthy_from_token E tk T w n0 k :
+  healthy_from w n0 E tk T -> n0 <= k ->
+  w k {| r_url := token_url E; r_auth := None |} = ROk (Some 200%Z) (BObj (token_obj tk)).
+Proof. intros Hw Hk. rewrite (Hw k _ Hk). unfold healthy; cbn [r_url]. rewrite str_eqb_refl. reflexivity. Qed.
+
+Lemma healthy_from_faulty E tk T w k0 fr :
+  healthy_from w 0 E tk T -> healthy_from (faulty w k0 fr) (S k0) E tk T.
+Proof.
+  intros Hw k r Hk. unfold faulty. destruct (Nat.eqb k k0) eqn:Eq; [apply Nat.eqb_eq in Eq; lia|].
+  apply Hw. lia.
+Qed.
+
+(* ------------------------------------------------------------------ token / site-id plumbing *)
+Lemma fetch_token_ok E w s tk :
+  w (nreq s) {| r_url := token_url E; r_auth := None |} = ROk (Some 200%Z) (BObj (token_obj tk)) ->
+  nonempty tk = true ->
+  fetch_token E w s = (Ok tk, set_tok tk (adv s [(true, token_url E)])).
+Proof.
+  intros Hw Hne. unfold fetch_token, send. cbn [r_url]. rewrite Hw. change (is_2xx (Some 200%Z)) with true. cbv iota.
+  cbn [token_obj o_token truthy dflt]. rewrite Hne. rewrite open_close_log. reflexivity.
+Qed.
+
+Lemma get_json_after_fetch E w u s t s1 :
+  tok s = None -> fetch_token E w s = (Ok t, s1) -> tok s1 = Some t ->
+  get_json E w u s = get_json E w u s1.
+Proof. intros H0 Hf H1. unfold get_json, ensure_token. rewrite H0, Hf, H1. reflexivity. Qed.
+
+Definition cache_ok (tk site : str) (s : st) : Prop :=
+  (tok s = None /\ sid s = None) \/ (tok s = Some tk /\ (sid s = None \/ sid s = Some site)).
+
+(* difference opened - closed is invariant: written additively *)
+Definition balanced (s s' : st) : Prop := opened s' + closed s = closed s' + opened s.
+
+Section ListAll.
+  Variable E : env.
+  Variable tk site : str.
+  Variable P : paging.
+  Variable T : list node.
+  Hypothesis Hwf : server_wf E site None P T = true.
+  Hypothesis Htk : nonempty tk = true.
+
+  Let table := server_table E site None P T.
+
+  Lemma wf_parts :
+    forallb ids_ok T = true /\ cuts_ok (P None) = true /\ forallb (links_ok P) T = true
+    /\ nodup_str (token_url E :: map fst table) = true /\ nonempty (base E) = true.
+  Proof.
+    unfold server_wf in Hwf. repeat (apply andb_true_iff in Hwf as [Hwf ?]). auto.
+  Qed.
+
+  (* C18_walk_exact *)
+  Lemma walk_root_exact : forall w n0 s fuel path,
+    healthy_from w n0 E tk table -> n0 <= nreq s -> tok s = Some tk -> need P None T <= fuel ->
+    exists l, run E w (walk E fuel site None None path) s = (Ok (spec_files E path T), adv s (api l)).
+  Proof.
+    intros w n0 s fuel path Hw Hn Ht Hf.
+    destruct wf_parts as (Hi & Hc & Hl & Hnd & Hb).
+    eapply (walk_any E site None P Hb None T path w s tk n0 fuel); auto.
+    eapply serves_incl; [eapply healthy_from_serves; eauto|].
+    unfold table, server_table, child_entries. intros x Hx. right. apply in_or_app. left. exact Hx.
+  Qed.
+
+  Lemma list_all_ok : forall w n0 s fuel,
+    healthy_from w n0 E tk table -> n0 <= nreq s -> cache_ok tk site s -> need P None T <= fuel ->
+    exists s', run E w (list_all_files E fuel) s = (Ok (spec_files E [] T), s')
+               /\ tok s' = Some tk /\ sid s' = Some site /\ balanced s s' /\ nreq s <= nreq s'.
+  Proof.
+    intros w n0 s fuel Hw Hn Hc Hf.
+    destruct wf_parts as (Hi & Hcu & Hl & Hnd & Hb).
+    assert (Hsv : serves w n0 tk table) by (eapply healthy_from_serves; eauto).
+    assert (Hsite : In (site_api_url E, site_obj site) table) by (left; reflexivity).
+    unfold list_all_files. rewrite run_bind. unfold get_site_id. cbn [run].
+    destruct Hc as [[Ht Hs]|[Ht [Hs|Hs]]]; rewrite Hs.
+    - (* nothing cached: token request, site request, walk *)
+      cbn [run].
+      pose proof (fetch_token_ok E w s tk (healthy_from_token E tk table w n0 _ Hw Hn) Htk) as Hft.
+      rewrite (get_json_after_fetch E w _ s tk _ Ht Hft eq_refl).
+      set (s1 := set_tok tk (adv s [(true, token_url E)])).
+      assert (Hn1 : n0 <= nreq s1) by (unfold s1, nreq; simpl; rewrite app_length; unfold nreq in Hn; lia).
+      rewrite (get_json_ok E w s1 tk _ _ n0 table Hsv Hn1 eq_refl Hsite).
+      cbn [site_obj o_id run].
+      set (s2 := set_sid site (adv s1 [(false, site_api_url E)])).
+      destruct (walk_root_exact w n0 s2 fuel [] Hw) as [l R]; auto.
+      { unfold s2, nreq; simpl. rewrite !app_length. unfold nreq in Hn. lia. }
+      rewrite R. eexists; split; [reflexivity|]. unfold balanced, nreq; simpl. rewrite !app_length. simpl. repeat split; auto; lia.
+    - (* token cached, site id not *)
+      cbn [run].
+      rewrite (get_json_ok E w s tk _ _ n0 table Hsv Hn Ht Hsite).
+      cbn [site_obj o_id run].
+      set (s2 := set_sid site (adv s [(false, site_api_url E)])).
+      destruct (walk_root_exact w n0 s2 fuel [] Hw) as [l R]; auto.
+      { unfold s2, nreq; simpl. rewrite !app_length. unfold nreq in Hn. lia. }
+      rewrite R. eexists; split; [reflexivity|]. unfold balanced, nreq; simpl. rewrite !app_length. simpl. repeat split; auto; lia.
+    - (* both cached *)
+      cbn [run].
+      destruct (walk_root_exact w n0 s fuel [] Hw) as [l R]; auto.
+      rewrite R. eexists; split; [reflexivity|]. unfold balanced, nreq; simpl. rewrite !app_length. repeat split; auto; lia.
+  Qed.
+End ListAll.
+
+(* ------------------------------------------------------------------ generic facts about any program in any world *)
+Lemma send_facts w b r s :
+  let s' := snd (send w b r s) in
+  urls s' = urls s ++ [(b, r_url r)] /\ balanced s s' /\ tok s' = tok s /\ sid s' = sid s.
+Proof.
+  unfold send, balanced. destruct (w (nreq s) r) as [c| |stt bd]; [| |destruct (is_2xx stt)]; simpl; repeat split; lia.
+Qed.
+
+Lemma fetch_token_facts E w s :
+  let s' := snd (fetch_token E w s) in
+  urls s' = urls s ++ [(true, token_url E)] /\ balanced s s' /\ sid s' = sid s.
+Proof.
+  unfold fetch_token.
+  pose proof (send_facts w true {| r_url := token_url E; r_auth := None |} s) as H.
+  destruct (send w true _ s) as [[bd|e] s1]; cbn [snd r_url] in *; destruct H as (Hu & Hb & Ht & Hs).
+  - destruct bd as [o| | |]; [destruct (truthy (o_token o))|..]; simpl; auto.
+  - simpl; auto.
+Qed.
+
+Lemma get_json_facts E w u s :
+  let s' := snd (get_json E w u s) in
+  (exists l, urls s' = urls s ++ l) /\ balanced s s' /\ sid s' = sid s.
+Proof.
+  unfold get_json, ensure_token. destruct (tok s) as [t|] eqn:Ht.
+  - pose proof (send_facts w false {| r_url := u; r_auth := Some t |} s) as H.
+    destruct (send w false _ s) as [[bd|e] s1]; cbn [snd r_url] in *; destruct H as (Hu & Hb & _ & Hs);
+      [destruct bd|]; simpl; (split; [eexists; exact Hu|auto]).
+  - pose proof (fetch_token_facts E w s) as H0.
+    destruct (fetch_token E w s) as [[t|e] s0]; cbn [snd] in *; destruct H0 as (Hu0 & Hb0 & Hs0).
+    + pose proof (send_facts w false {| r_url := u; r_auth := Some t |} s0) as H.
+      destruct (send w false _ s0) as [[bd|e] s1]; cbn [snd r_url] in *; destruct H as (Hu & Hb & _ & Hs);
+        [destruct bd|]; simpl; (split; [eexists; rewrite Hu, Hu0, <- app_assoc; reflexivity|]);
+        unfold balanced in *; split; try congruence; lia.
+    + simpl. split; [eexists; exact Hu0|auto].
+Qed.
+
+(* every response opened during a run is closed — for every program, world and start state *)
+Lemma run_facts {A} E w (p : prog A) : forall s,
+  let s' := snd (run E w p s) in (exists l, urls s' = urls s ++ l) /\ balanced s s'.
+Proof.
+  induction p as [a|e|u k IH|u k IH|k IH|v p IH]; intro s; cbn [run].
+  - simpl. split; [exists []; rewrite app_nil_r; reflexivity | unfold balanced; lia].
+  - simpl. split; [exists []; rewrite app_nil_r; reflexivity | unfold balanced; lia].
+  - pose proof (get_json_facts E w u s) as H. destruct (get_json E w u s) as [[o|e] s1]; cbn [snd] in *.
+    + destruct H as ([l Hl] & Hb & _). destruct (IH o s1) as ([l2 Hl2] & Hb2).
+      split; [exists (l ++ l2); rewrite Hl2, Hl, app_assoc; reflexivity | unfold balanced in *; lia].
+    + destruct H as (Hl & Hb & _). auto.
+  - pose proof (get_json_facts E w u s) as H. destruct (get_json E w u s) as [[o|e] s1]; cbn [snd] in *.
+    + destruct H as ([l Hl] & Hb & _). destruct (IH (Some o) s1) as ([l2 Hl2] & Hb2).
+      split; [exists (l ++ l2); rewrite Hl2, Hl, app_assoc; reflexivity | unfold balanced in *; lia].
+    + destruct H as ([l Hl] & Hb & _). destruct (is_404 e).
+      * destruct (IH None s1) as ([l2 Hl2] & Hb2).
+        split; [exists (l ++ l2); rewrite Hl2, Hl, app_assoc; reflexivity | unfold balanced in *; lia].
+      * simpl. split; [exists l; exact Hl | exact Hb].
+  - apply IH.
+  - destruct (IH (set_sid v s)) as ([l Hl] & Hb). split; [exists l; exact Hl | exact Hb].
+Qed.
+
+(* ------------------------------------------------------------------ programs without handler and without cache write *)
+Fixpoint plain {A} (p : prog A) : Prop :=
+  match p with
+  | Ret _ | Fail _ => True
+  | ApiGet _ k => forall o, plain (k o)
+  | ApiGet404 _ _ => False
+  | GetSid k => forall c, plain (k c)
+  | SetSid _ _ => False
+  end.
+
+Lemma plain_bind {A B} (p : prog A) (f : A -> prog B) : plain p -> (forall a, plain (f a)) -> plain (bind p f).
+Proof. induction p; simpl; intros Hp Hf; auto; tauto. Qed.
+
+Lemma plain_paginate E path : forall fuel cur, plain (list_items_paginated E fuel cur path).
+Proof.
+  induction fuel as [|f IH]; intro cur; cbn [list_items_paginated]; destruct (truthy cur); simpl; auto.
+  intro o. apply plain_bind; [apply IH | intro; exact I].
+Qed.
+
+Lemma plain_folders : forall fuel cur, plain (get_folders fuel cur).
+Proof.
+  induction fuel as [|f IH]; intro cur; cbn [get_folders]; destruct (truthy cur); simpl; auto.
+  intro o. apply plain_bind; [apply IH | intro; exact I].
+Qed.
+
+Lemma plain_walk_folders rec path : (forall i p, plain (rec i p)) -> forall l, plain (walk_folders rec path l).
+Proof.
+  intros Hr. induction l as [|[nm i] l IH]; cbn [walk_folders]; [exact I|].
+  destruct (truthy i); [|exact IH].
+  apply plain_bind; [apply Hr|]. intro a. apply plain_bind; [exact IH | intro; exact I].
+Qed.
+
+Lemma plain_walk E site drive : forall fuel oid path, plain (walk E fuel site drive oid path).
+Proof.
+  induction fuel as [|f IH]; intros oid path; cbn [walk]; [exact I|].
+  apply plain_bind; [apply plain_paginate|]. intro files.
+  apply plain_bind; [apply plain_folders|]. intro folders.
+  apply plain_bind; [apply plain_walk_folders; intros; apply IH | intro; exact I].
+Qed.
+
+Lemma get_json_cached E w u s t :
+  tok s = Some t ->
+  get_json E w u s =
+  match send w false {| r_url := u; r_auth := Some t |} s with
+  | (Raise e, s') => (Raise e, s')
+  | (Ok (BObj o), s') => (Ok o, s')
+  | (Ok _, s') => (Raise (RequestError None u), s')
+  end.
+Proof. intro Ht. unfold get_json, ensure_token. rewrite Ht. reflexivity. Qed.
+
+Lemma send_fault w k0 f u t s :
+  nreq s = k0 -> fault_ok f = true ->
+  exists s', send (faulty w k0 (resp_of_fault f)) false {| r_url := u; r_auth := Some t |} s
+             = (match f with
+                | FHttp _ | FUrl | FStatus _ => Raise (err_of false u f)
+                | FBadJson => Ok BBadJson | FNonObj => Ok BNonObj | FBadUtf8 => Ok BBadUtf8
+                end, s')
+             /\ urls s' = urls s ++ [(false, u)] /\ balanced s s' /\ tok s' = tok s /\ sid s' = sid s.
+Proof.
+  intros Hk Hf. unfold send, faulty. rewrite Hk, Nat.eqb_refl. unfold balanced.
+  destruct f as [c| |stt| | |]; cbn [resp_of_fault r_url err_of];
+    try (change (is_2xx (Some 200%Z)) with true; cbv iota);
+    try (simpl in Hf; apply negb_true_iff in Hf; rewrite Hf);
+    eexists; (split; [reflexivity|]); simpl; repeat split; lia.
+Qed.
+
+(* a fault at request k0 of a successful healthy run makes the run raise the client's error for that
+   request; the failed run is a prefix of the healthy one *)
+Lemma fault_raises {A} E wH k0 f (p : prog A) :
+  plain p -> fault_ok f = true ->
+  forall s t a s1,
+    tok s = Some t -> run E wH p s = (Ok a, s1) -> nreq s <= k0 < nreq s1 ->
+    exists u s', nth_error (urls s1) k0 = Some (false, u)
+                 /\ run E (faulty wH k0 (resp_of_fault f)) p s = (Raise (err_of false u f), s')
+                 /\ nreq s' = S k0 /\ balanced s s' /\ tok s' = Some t /\ sid s' = sid s.
+Proof.
+  intros Hp Hf. induction p as [a0|e|u k IH|u k IH|k IH|v p IH]; intros s t a s1 Ht Hr Hk; cbn [run] in *.
+  - inversion Hr; subst. lia.
+  - discriminate.
+  - cbn [plain] in Hp.
+    rewrite (get_json_cached E wH u s t Ht) in Hr. rewrite (get_json_cached E _ u s t Ht).
+    destruct (Nat.eq_dec (nreq s) k0) as [Heq|Hne].
+    + (* the fault hits this request *)
+      destruct (send_fault wH k0 f u t s Heq Hf) as (s' & Hsend & Hu & Hb & Htk & Hsd).
+      rewrite Hsend.
+      assert (Hlog : exists l, urls s1 = (urls s ++ [(false, u)]) ++ l).
+      { pose proof (send_facts wH false {| r_url := u; r_auth := Some t |} s) as Hs.
+        destruct (send wH false _ s) as [[bd|e] sm]; cbn [snd r_url] in *; [|discriminate].
+        destruct Hs as (Hum & _). destruct bd as [o| | |]; try discriminate.
+        destruct (run_facts E wH (k o) sm) as ([l Hl] & _). rewrite Hr in Hl. cbn [snd] in Hl.
+        exists l. rewrite Hl, Hum. reflexivity. }
+      destruct Hlog as [l Hl].
+      exists u, s'. split.
+      { rewrite Hl, nth_error_app1 by (rewrite app_length; simpl; unfold nreq in Heq; lia).
+        rewrite nth_error_app2 by (unfold nreq in Heq; lia).
+        unfold nreq in Heq. rewrite <- Heq, Nat.sub_diag. reflexivity. }
+      split.
+      { destruct f; reflexivity. }
+      unfold nreq. rewrite Hu, app_length. simpl. unfold nreq in Heq. repeat split; auto; try lia; congruence.
+    + (* the fault is later: this request behaves as in the healthy run *)
+      assert (Hsame : send (faulty wH k0 (resp_of_fault f)) false {| r_url := u; r_auth := Some t |} s
+                      = send wH false {| r_url := u; r_auth := Some t |} s).
+      { unfold send, faulty. destruct (Nat.eqb (nreq s) k0) eqn:Eq; [apply Nat.eqb_eq in Eq; lia | reflexivity]. }
+      rewrite Hsame.
+      pose proof (send_facts wH false {| r_url := u; r_auth := Some t |} s) as Hs.
+      destruct (send wH false _ s) as [[bd|e] sm]; cbn [snd r_url] in *; [|discriminate].
+      destruct Hs as (Hum & Hbm & Htm & Hsm). destruct bd as [o| | |]; try discriminate.
+      destruct (IH o (Hp o) sm t a s1) as (u' & s' & H1 & H2 & H3 & H4 & H5 & H6); auto.
+      { congruence. }
+      { unfold nreq in *. rewrite Hum, app_length. simpl. lia. }
+      exists u', s'. repeat split; auto; unfold balanced in *; try lia; congruence.
+  - cbn [plain] in Hp. contradiction.
+  - cbn [plain] in Hp. eapply IH; eauto.
+  - cbn [plain] in Hp. contradiction.
+Qed.
+
+(* ------------------------------------------------------------------ faults in list_all_files from a fresh client *)
+Section Faults.
+  Variable E : env.
+  Variable tk site : str.
+  Variable P : paging.
+  Variable T : list node.
+  Hypothesis Hwf : server_wf E site None P T = true.
+  Hypothesis Htk : nonempty tk = true.
+
+  Let table := server_table E site None P T.
+  Let wH := healthy E tk table.
+
+  (* state of a fresh client after the token request and the site request succeeded *)
+  Definition s_tok : st := set_tok tk (adv st0 [(true, token_url E)]).
+  Definition s_site : st := set_sid site (adv s_tok [(false, site_api_url E)]).
+
+  Lemma site_not_token : str_eqb (site_api_url E) (token_url E) = false.
+  Proof.
+    destruct (wf_parts E site P T Hwf) as (_ & _ & _ & Hnd & _).
+    unfold server_table in Hnd. cbn [map fst nodup_str mem_str] in Hnd.
+    apply andb_true_iff in Hnd as [Ht _]. apply negb_true_iff in Ht. apply orb_false_iff in Ht as [Ht _].
+    destruct (str_eqb (site_api_url E) (token_url E)) eqn:Eq; [|reflexivity].
+    apply str_eqb_eq in Eq. rewrite Eq, str_eqb_refl in Ht. discriminate.
+  Qed.
+
+  Lemma token_step w : (forall r, w 0 r = wH 0 r) -> fetch_token E w st0 = (Ok tk, s_tok).
+  Proof.
+    intro H0. apply fetch_token_ok; [|exact Htk].
+    change (nreq st0) with 0. rewrite H0. unfold wH, healthy. cbn [r_url]. rewrite str_eqb_refl. reflexivity.
+  Qed.
+
+  Lemma site_step w : (forall r, w 1 r = wH 1 r) -> get_json E w (site_api_url E) s_tok = (Ok (site_obj site), adv s_tok [(false, site_api_url E)]).
+  Proof.
+    intro H1. rewrite (get_json_cached E w _ s_tok tk eq_refl). unfold send.
+    change (nreq s_tok) with 1. rewrite H1. unfold wH, healthy. cbn [r_url r_auth].
+    rewrite site_not_token, str_eqb_refl. unfold table, server_table. cbn [assoc]. rewrite str_eqb_refl.
+    change (is_2xx (Some 200%Z)) with true. cbv iota. rewrite open_close_log. reflexivity.
+  Qed.
+
+  Lemma get_site_id_fresh w :
+    (forall r, w 0 r = wH 0 r) -> (forall r, w 1 r = wH 1 r) ->
+    run E w (get_site_id E) st0 = (Ok site, s_site).
+  Proof.
+    intros H0 H1. unfold get_site_id. cbn [run st0 sid].
+    rewrite (get_json_after_fetch E w _ st0 tk s_tok eq_refl (token_step w H0) eq_refl).
+    rewrite (site_step w H1). cbn [site_obj o_id run]. reflexivity.
+  Qed.
+
+  Lemma healthy_run : forall fuel, need P None T <= fuel ->
+    exists l, run E wH (list_all_files E fuel) st0 = (Ok (spec_files E [] T), adv s_site (api l)).
+  Proof.
+    intros fuel Hf. unfold list_all_files. rewrite run_bind, (get_site_id_fresh wH) by reflexivity.
+    apply (walk_root_exact E tk site P T Hwf wH 0 s_site fuel []); auto; try (intros k r _; reflexivity).
+    unfold nreq; simpl; lia.
+  Qed.
+
+  Lemma fault_all : forall fuel k0 f l,
+    need P None T <= fuel -> fault_ok f = true ->
+    run E wH (list_all_files E fuel) st0 = (Ok (spec_files E [] T), adv s_site (api l)) ->
+    k0 < nreq (adv s_site (api l)) ->
+    exists it u s',
+      nth_error (urls (adv s_site (api l))) k0 = Some (it, u)
+      /\ run E (faulty wH k0 (resp_of_fault f)) (list_all_files E fuel) st0 = (Raise (err_of it u f), s')
+      /\ opened s' = closed s' /\ cache_ok tk site s' /\ nreq s' = S k0.
+  Proof.
+    intros fuel k0 f l Hfuel Hf Hrun Hk.
+    set (wF := faulty wH k0 (resp_of_fault f)).
+    destruct k0 as [|[|k0]].
+    - (* the token request fails *)
+      exists true, (token_url E).
+      unfold list_all_files. rewrite run_bind. unfold get_site_id. cbn [run st0 sid].
+      unfold get_json, ensure_token, fetch_token, send. cbn [st0 tok nreq urls List.length r_url].
+      unfold wF, faulty. cbn [Nat.eqb].
+      destruct f as [c| |stt| | |]; cbn [resp_of_fault err_of];
+        try (change (is_2xx (Some 200%Z)) with true; cbv iota);
+        try (simpl in Hf; apply negb_true_iff in Hf; rewrite Hf);
+        eexists; (split; [reflexivity|]); (split; [reflexivity|]); simpl; (split; [reflexivity|]);
+        (split; [left; split; reflexivity | reflexivity]).
+    - (* the site request fails *)
+      exists false, (site_api_url E).
+      unfold list_all_files. rewrite run_bind. unfold get_site_id. cbn [run st0 sid].
+      assert (H0 : forall r, wF 0 r = wH 0 r) by reflexivity.
+      rewrite (get_json_after_fetch E wF _ st0 tk s_tok eq_refl (token_step wF H0) eq_refl).
+      rewrite (get_json_cached E wF _ s_tok tk eq_refl).
+      destruct (send_fault wH 1 f (site_api_url E) tk s_tok eq_refl Hf) as (s' & Hsend & Hu & Hb & Htk' & Hsd).
+      fold wF in Hsend. rewrite Hsend.
+      exists s'. split; [reflexivity|]. split; [destruct f; reflexivity|].
+      unfold balanced in Hb. simpl in Hb. split; [lia|]. split.
+      + right. split; [exact Htk' | left; exact Hsd].
+      + unfold nreq. rewrite Hu. reflexivity.
+    - (* a listing request fails *)
+      assert (H0 : forall r, wF 0 r = wH 0 r) by reflexivity.
+      assert (H1 : forall r, wF 1 r = wH 1 r) by reflexivity.
+      unfold list_all_files in *. rewrite run_bind in *.
+      rewrite (get_site_id_fresh wF H0 H1). rewrite (get_site_id_fresh wH) in Hrun by reflexivity.
+      destruct (fault_raises E wH (S (S k0)) f _ (plain_walk E site None fuel None []) Hf s_site tk _ _ eq_refl Hrun)
+        as (u & s' & Hn & Hr & Hq & Hb & Htk' & Hsd).
+      { split; [unfold nreq; simpl; lia | exact Hk]. }
+      exists false, u, s'. split; [exact Hn|]. split; [exact Hr|].
+      unfold balanced in Hb. simpl in Hb. split; [lia|]. split; [|exact Hq].
+      right. split; [exact Htk' | right; exact Hsd].
+  Qed.
+
+  (* the same client, called again while the transport is healthy, returns the complete listing *)
+  Lemma retry_ok : forall fuel k0 fr s',
+    need P None T <= fuel -> cache_ok tk site s' -> S k0 <= nreq s' ->
+    exists s'', run E (faulty wH k0 fr) (list_all_files E fuel) s' = (Ok (spec_files E [] T), s'')
+                /\ balanced s' s''.
+  Proof.
+    intros fuel k0 fr s' Hfuel Hc Hn.
+    destruct (list_all_ok E tk site P T Hwf Htk (faulty wH k0 fr) (S k0) s' fuel) as (s'' & R & _ & _ & Hb & _); auto.
+    { apply healthy_from_faulty. intros k r _. reflexivity. }
+    exists s''. auto.
+  Qed.
+End Faults.
+
+(* ------------------------------------------------------------------ FileFilter.matches *)
+Definition dt_ge (d a : dt) : bool := match dt_cmp d a with Some Lt => false | Some _ => true | None => false end.
+Definition dt_lt (d b : dt) : bool := match dt_cmp d b with Some Lt => true | _ => false end.
+Definition cmp_defined (d : dt) (b : option dt) : bool :=
+  match b with Some x => match dt_cmp d x with Some _ => true | None => false end | None => true end.
+
+(* declarative reading of one date block: field present, parses, after <= d (inclusive), d < before (exclusive) *)
+Definition range_spec (E : env) (after before : option dt) (field : option str) : bool :=
+  match after, before with
+  | None, None => true
+  | _, _ =>
+      truthy field &&
+      match parse_iso E (dflt field) with
+      | None => false
+      | Some d => (match after with Some a => dt_ge d a | None => true end)
+                  && (match before with Some b => dt_lt d b | None => true end)
+      end
+  end.
+
+(* no naive/aware mix between the parsed timestamp and the bounds *)
+Definition range_comparable (E : env) (after before : option dt) (field : option str) : bool :=
+  match parse_iso E (dflt field) with
+  | Some d => cmp_defined d after && cmp_defined d before
+  | None => true
+  end.
+
+Lemma check_range_spec E a b fld :
+  range_comparable E a b fld = true -> check_range E a b fld = Ok (range_spec E a b fld).
+Proof.
+  unfold range_comparable, check_range, range_spec, dt_ge, dt_lt, cmp_defined. intro H.
+  destruct a as [a|], b as [b|]; try reflexivity;
+    destruct (truthy fld); try reflexivity; cbn [andb];
+    destruct (parse_iso E (dflt fld)) as [d|]; try reflexivity;
+    repeat match goal with |- context [dt_cmp ?x ?y] => destruct (dt_cmp x y) as [[| |]|] end;
+    simpl in *; try discriminate; reflexivity.
+Qed.
+
+Definition spec_matches (E : env) (f : ffilter) (m : fmeta) : bool :=
+  range_spec E (created_after f) (created_before f) (m_created m)
+  && range_spec E (modified_after f) (modified_before f) (m_modified m)
+  && ext_ok E f m && pat_ok E f m.
+
+Definition comparable (E : env) (f : ffilter) (m : fmeta) : bool :=
+  range_comparable E (created_after f) (created_before f) (m_created m)
+  && range_comparable E (modified_after f) (modified_before f) (m_modified m).
+
+Lemma matches_spec E f m : comparable E f m = true -> matches E f m = Ok (spec_matches E f m).
+Proof.
+  unfold comparable, matches, spec_matches. intro H. apply andb_true_iff in H as [H1 H2].
+  rewrite (check_range_spec E _ _ _ H1), (check_range_spec E _ _ _ H2).
+  destruct (range_spec E (created_after f) (created_before f) (m_created m)); [|reflexivity].
+  destruct (range_spec E (modified_after f) (modified_before f) (m_modified m)); reflexivity.
+Qed.
+
+Lemma bounds_meaning d x :
+  (dt_cmp d x = Some Eq -> dt_ge d x = true /\ dt_lt d x = false) /\
+  (dt_cmp d x = Some Gt -> dt_ge d x = true /\ dt_lt d x = false) /\
+  (dt_cmp d x = Some Lt -> dt_ge d x = false /\ dt_lt d x = true).
+Proof. unfold dt_ge, dt_lt. split; [|split]; intro H; rewrite H; split; reflexivity. Qed.
+
+Lemma filter_matches_filter E f g : forall l,
+  (forall m, In m l -> matches E f m = Ok (g m)) -> filter_matches E f l = Ok (filter g l).
+Proof.
+  induction l as [|m l IH]; intro H; [reflexivity|]. cbn [filter_matches filter].
+  rewrite (H m (or_introl eq_refl)), IH by (intros; apply H; right; assumption).
+  destruct (g m); reflexivity.
+Qed.
+
+(* list_files_filtered without folder_paths = the filter applied to what list_all_files returns *)
+Lemma filtered_as_all E w fuel f s :
+  folder_paths f = [] ->
+  run E w (list_files_filtered E fuel f None) s =
+  match run E w (list_all_files E fuel) s with
+  | (Ok l, s') => match filter_matches E f l with Ok r => (Ok r, s') | Raise e => (Raise e, s') end
+  | (Raise e, s') => (Raise e, s')
+  end.
+Proof.
+  intro Hp. unfold list_files_filtered, list_all_files. rewrite Hp, !run_bind.
+  destruct (run E w (get_site_id E) s) as [[site|e] s1]; [|reflexivity].
+  cbn [walk_and_filter truthy]. rewrite run_bind.
+  destruct (run E w (walk E fuel site None None []) s1) as [[l|e] s2]; [|reflexivity].
+  destruct (filter_matches E f l); reflexivity.
+Qed.
+
+(* truncating an exact instant x (in units of 1/u microsecond, u > 0) to whole microseconds does not change
+   its position relative to a bound given in whole microseconds: the parsed value may be compared instead *)
+Lemma floor_preserves_bounds (x u b : Z) : (0 < u)%Z ->
+  ((b <=? x / u) = (b * u <=? x))%Z /\ ((x / u <? b) = (x <? b * u))%Z.
+Proof.
+  intro Hu. split.
+  - apply eq_true_iff_eq. rewrite !Z.leb_le. split; intro H.
+    + apply Z.le_trans with (u * (x / u))%Z; [nia | apply Z.mul_div_le; lia].
+    + apply Z.div_le_lower_bound; lia.
+  - apply eq_true_iff_eq. rewrite !Z.ltb_lt. split; intro H.
+    + apply Z.lt_le_trans with (u * (x / u + 1))%Z; [|nia].
+      pose proof (Z.mul_succ_div_gt x u Hu). lia.
+    + apply Z.div_lt_upper_bound; lia.
+Qed.
